@@ -838,15 +838,29 @@ func (g *gen) hardAddr() string {
 	return addrx.QuoteName(n) + " <" + spec + ">"
 }
 
+// bareQuoted: an address without display name whose local part is not a dot-atom
+func (g *gen) bareQuoted() string {
+	g.uniq++
+	l := addrx.QuoteNeedLocals[g.rng.Intn(len(addrx.QuoteNeedLocals))]
+	if g.rng.Intn(3) == 0 {
+		l = addrx.GenLocal(g.rng, addrx.LQuoteAscii)
+	}
+	g.r.Dist["value:bare-quoted-local"]++
+	return addrx.BareAddrSpec(g.rng, addrx.Mailbox{Local: l, Domain: fmt.Sprintf("d%d.example.com", g.uniq)})
+}
+
 // chain: a Set on one of To / Cc / Bcc followed by Add / AddFormat calls on the SAME header (the stored
 // entries are re-serialised and re-parsed by every one of them), other calls in between
 func (g *gen) chain() []op {
 	slot := slots[g.rng.Intn(len(slots))]
 	var first []string
 	for i := 0; i < 1+g.rng.Intn(3); i++ {
-		if g.rng.Intn(3) == 0 {
+		switch g.rng.Intn(4) {
+		case 0:
 			first = append(first, g.addr())
-		} else {
+		case 1: // no display name, local part that needs quoting: re-serialised by every following Add
+			first = append(first, g.bareQuoted())
+		default:
 			first = append(first, g.hardAddr())
 		}
 	}
@@ -924,6 +938,15 @@ func Run(r *hx.Run, replay []hx.Case) {
 		{{"From", []string{`"a b"@x.test`}}, {"To", []string{`"x>y"@x.test`, `"p@q"@x.test`}}},
 	} {
 		runCase(r, hx.Case{ID: r.NewID(), Kind: "seq", Args: []string{opsString(ops)}})
+	}
+	// an entry without display name whose local part needs quoting, then Add / AddFormat on the same header
+	for i, l := range addrx.QuoteNeedLocals {
+		slot := slots[i%3]
+		q := addrx.RenderLocal(rand.New(rand.NewSource(1)), l)
+		runCase(r, hx.Case{ID: r.NewID(), Kind: "seq", Args: []string{opsString([]op{
+			{"From", []string{"sender@origin.test"}}, {slot, []string{q + "@example.com", "<" + q + "@second.example.com>"}},
+			{"Add" + slot, []string{"admin@example.com"}}, {"Add" + slot + "Format", []string{"Third", "third@example.com"}},
+		})}})
 	}
 	// net/mail quirk (known finding dispname-backslash-q-encoded-word): names that need encoding and hold a backslash
 	for _, qn := range addrx.QBackslashNames {
